@@ -164,7 +164,8 @@ def run_config(cfg):
         elif kind == "hmc":
             k = gs.HMCKernel(ps, num_integration_steps=3, initial_step_size=0.05)
         else:
-            k = gs.NUTSKernel(ps, max_treedepth=3, initial_step_size=0.05)
+            # max_treedepth 1: every transition reaches the maximum tree depth (error code 2) and is a valid move
+            k = gs.NUTSKernel(ps, max_treedepth=b.get("max_treedepth", 3), initial_step_size=0.05)
         builder.add_kernel(k)
         builder.add_kernel(gs.GibbsKernel([f"probe_{j}"], probe_fn(j)))
     epochs = [EpochConfig(EpochType.INITIAL_VALUES, 1, 1, None)]
@@ -182,9 +183,11 @@ def run_config(cfg):
     kids = list(infos.keys())
     # the builder names kernels kernel_00, kernel_01, ... in the order they were added
     kids_sorted = sorted(kids)
-    moved = {}
+    moved, codes, accs = {}, {}, {}
     for j, b in enumerate(blocks):
         inf = infos[kids_sorted[2 * j]]
+        codes[j] = np.asarray(inf.error_code)
+        accs[j] = np.asarray(inf.acceptance_prob)
         if b["kind"] in MH_TYPE:
             moved[j] = np.asarray(inf.position_moved).astype(bool)
         else:
@@ -215,7 +218,8 @@ def run_config(cfg):
                         changed.append(pos[nm])
                 mv = True if moved[j] is None else bool(moved[j][ch, t - nin])
                 fsteps.append({"kernel": j, "moved": mv, "changed": sorted(changed)})
-                steps_full.append({"chain": ch, "t": t, "kernel": j, "moved": mv, "pre": prev, "post": cur})
+                steps_full.append({"chain": ch, "t": t, "kernel": j, "moved": mv, "pre": prev, "post": cur,
+                                   "code": int(codes[j][ch, t - nin]), "acc": float(accs[j][ch, t - nin])})
                 prev = cur
             # the state the engine stored for this iteration is what the last kernel returned
             for ti, nm in enumerate(tracked):
@@ -285,6 +289,23 @@ def check_case(case):
                 if not np.isnan(post[:nt]).any():
                     return f"{where}: the kernel reports an accepted move but the next kernel received its block unchanged"
     case["recomputations"] = nrec
+    # a kernel that reports a non-zero error code for a valid transition (NUTS: 2 = maximum tree depth reached) still
+    # returns the state it moved to: its successors must receive it
+    for j, b in enumerate(blocks):
+        if b["kind"] != "nuts":
+            continue
+        flagged = [s for s in steps if s["kernel"] == j and s["code"] != 0 and s["acc"] > 0.3]
+        clean = [s for s in steps if s["kernel"] == j and s["code"] == 0]
+        def moved_block(s):
+            return any(not same(get(s["pre"], p + "_value"), get(s["post"], p + "_value")) for p in b["params"])
+        case.setdefault("nuts_flagged", 0)
+        case["nuts_flagged"] += len(flagged)
+        if len(flagged) >= 6 and not any(moved_block(s) for s in flagged):
+            s0 = flagged[0]
+            return (f"kernel {j} (nuts on {b['params']}, max_treedepth {b.get('max_treedepth', 3)}) reported {len(flagged)} transitions "
+                    f"with a non-zero error code (first: chain {s0['chain']}, iteration {s0['t']}, code {s0['code']}, acceptance "
+                    f"{s0['acc']:.3f}); in none of them did its successor receive a moved block"
+                    + (f", while {sum(moved_block(s) for s in clean)} of its {len(clean)} transitions with code 0 moved it" if clean else ""))
     return None
 
 
@@ -328,7 +349,10 @@ def gen_cfg(rnd, i, quick):
     out = []
     for j, b in enumerate(blocks):
         kind = kinds_cycle[j % len(kinds_cycle)] if j < 2 else rnd.choice(KINDS)
-        out.append({"kind": kind, "params": sorted(b)})
+        blk = {"kind": kind, "params": sorted(b)}
+        if kind == "nuts" and rnd.random() < 0.5:
+            blk["max_treedepth"] = 1
+        out.append(blk)
     epochs = rnd.choice([[["FAST_ADAPTATION", 4], ["POSTERIOR", 4]],
                          [["BURNIN", 4], ["POSTERIOR", 4]],
                          [["FAST_ADAPTATION", 4], ["SLOW_ADAPTATION", 4], ["POSTERIOR", 4]]])
@@ -343,7 +367,8 @@ CORPUS_F = [
                 {"kind": "rw", "params": ["log_sigma"]}],
      "epochs": [["FAST_ADAPTATION", 4], ["POSTERIOR", 4]]},
     {"n": 5, "p": 1, "data_seed": 2, "seed": 12, "chains": 1, "tau_transient": True, "sigma_transient": False,
-     "blocks": [{"kind": "iwls", "params": ["beta"]}, {"kind": "mh", "params": ["free", "log_sigma"]},
+     "blocks": [{"kind": "iwls", "params": ["beta"]}, {"kind": "mh", "params": ["free"]},
+                {"kind": "nuts", "params": ["log_sigma"], "max_treedepth": 1},
                 {"kind": "hmc", "params": ["mu0"]}, {"kind": "gibbs", "params": ["log_tau"]}],
      "epochs": [["BURNIN", 4], ["POSTERIOR", 4]]},
 ]
@@ -379,6 +404,7 @@ def histogram(ctx, c):
         ctx.hist("F.kernel." + b["kind"])
     for ety, _ in c["cfg"]["epochs"]:
         ctx.hist("F.epoch." + ety)
+    ctx.hist("F.nuts_transitions_with_nonzero_error_code", c.get("nuts_flagged", 0))
     for s in c["fsteps"]:
         k = c["fkernels"][s["kernel"]]
         ctx.hist(f"F.transition.{k['kind']}." + ("moved" if s["moved"] else "rejected"))
